@@ -27,8 +27,36 @@ class UserExc(Exception):
         self.m = m
 
 
+class Runaway(BaseException):
+    """a case that does not terminate (the generator filters them; shrinking may produce one)"""
+
+
+MAX_CALLBACKS = 4000
+
+
 class Mo(object):
     pass
+
+
+def make_model(ctx, idx):
+    """a model whose state attribute is a property: every change of the attribute (Machine.set_state) is
+    logged as the pair of markers TExited old / TEntered new — without adding a callback anywhere"""
+    class PMo(object):
+        def __init__(self):
+            self._st = None
+
+        @property
+        def state(self):
+            return self._st
+
+        @state.setter
+        def state(self, value):
+            old, self._st = self._st, value
+            if old is not None:
+                now = ctx.now()
+                ctx.log.append([K_EXITED, idx, _name_int(old), now])
+                ctx.log.append([K_ENTERED, idx, _name_int(value), now])
+    return PMo()
 
 
 # ------------------------------------------------------------------ virtual threading.Timer
@@ -159,11 +187,15 @@ class VLoop(asyncio.SelectorEventLoop):
 
 
 # ------------------------------------------------------------------ building the machine
-def _state_int(model):
+def _name_int(v):
     try:
-        return int(str(model.state)[1:])
+        return int(str(v)[1:])
     except Exception:
         return 999
+
+
+def _state_int(model):
+    return _name_int(model.state)
 
 
 def _res_code(tr, ex):
@@ -182,7 +214,8 @@ class Ctx(object):
         self.log = []
         self.fired = 0
         self.stop = None           # asyncio: stops the loop when timers run away
-        self.models = [Mo() for _ in range(case['nmodels'])]
+        self.calls = 0
+        self.models = [make_model(self, i) for i in range(case['nmodels'])]
         self.mid = {id(m): i for i, m in enumerate(self.models)}
 
     def m_of(self, event_data):
@@ -190,14 +223,48 @@ class Ctx(object):
 
 
 def _state_defs(ctx, is_async):
-    """keyword dicts of the states; every state gets a marker recorder in front of its on_enter / on_exit list
-    and (when on_timeout is passed at all) in front of its on_timeout list"""
+    """keyword dicts of the states; on_enter / on_exit lists hold exactly the case's recorders (possibly none);
+    when on_timeout is passed at all a marker recorder stands in front of that list"""
     case, log = ctx.case, ctx.log
 
-    def plain(kind, cb):
+    def tick_guard():
+        ctx.calls += 1
+        if ctx.calls > MAX_CALLBACKS:
+            raise Runaway()
+
+    def plain_sync(kind, cb):
         def f(event_data):
-            log.append([kind, cb, ctx.m_of(event_data), _state_int(event_data.model), ctx.now()])
+            tick_guard()
+            m = ctx.m_of(event_data)
+            log.append([kind, cb['id'], m, _state_int(event_data.model), ctx.now()])
+            if cb['act'] is not None:
+                e = cb['act']
+                try:
+                    r = R_TRUE if event_data.model.trigger('e%d' % e) else R_FALSE
+                except RecursionError:
+                    raise Runaway()
+                except Exception as ex:  # noqa
+                    r = _res_code(ctx.tr, ex)
+                log.append([K_RES, m, e, r, ctx.now()])
         return f
+
+    def plain_async(kind, cb):
+        async def f(event_data):
+            tick_guard()
+            m = ctx.m_of(event_data)
+            log.append([kind, cb['id'], m, _state_int(event_data.model), ctx.now()])
+            if cb['act'] is not None:
+                e = cb['act']
+                try:
+                    r = R_TRUE if await event_data.model.trigger('e%d' % e) else R_FALSE
+                except RecursionError:
+                    raise Runaway()
+                except Exception as ex:  # noqa
+                    r = _res_code(ctx.tr, ex)
+                log.append([K_RES, m, e, r, ctx.now()])
+        return f
+
+    plain = plain_async if is_async else plain_sync
 
     def marker(kind, s):
         def f(event_data):
@@ -247,8 +314,8 @@ def _state_defs(ctx, is_async):
     out = []
     for s in case['states']:
         d = dict(name='s%d' % s['id'],
-                 on_enter=[marker(K_ENTERED, s['id'])] + [plain(K_CENTER, c) for c in s['enter']],
-                 on_exit=[marker(K_EXITED, s['id'])] + [plain(K_CEXIT, c) for c in s['exit']])
+                 on_enter=[plain(K_CENTER, c) for c in s['enter']],
+                 on_exit=[plain(K_CEXIT, c) for c in s['exit']])
         if s['timeout'] is not None:
             d['timeout'] = s['timeout']
         if s['given']:
@@ -395,31 +462,41 @@ THREAD_CLASSES = ['Machine', 'HierarchicalMachine', 'LockedMachine', 'LockedHier
 ASYNC_CLASSES = ['AsyncMachine', 'HierarchicalAsyncMachine']
 RULE = ('cases = @add_state_features(Timeout) on Machine / HierarchicalMachine (flat configuration) / LockedMachine / '
         'LockedHierarchicalMachine (60%) or @add_state_features(AsyncTimeout) on AsyncMachine / HierarchicalAsyncMachine '
-        '(40%), queued or not, x 1-4 states (timeout 1-4 with 0-3 on_timeout recorders, timeout 0, or none; 0-2 on_enter / '
-        'on_exit recorders; a marker recorder in front of every list) x on_timeout callbacks that trigger an event on the '
-        'timed-out model or (threads) on another model (35%) and/or raise (12%) x 1-3 events with transitions (reflexive '
-        '30%, internal 10%, failing condition 12%, states without transition, denser from the initial state) x 0-2 machine on_exception recorders x 1-3 '
-        'models x histories of 2-14 operations, `model.trigger(event)` or `advance(dt)` with dt drawn around the timeouts '
-        '(0, 1, timeout-1, timeout, timeout+1, long); every 11th case has a state with timeout > 0 and no on_timeout '
-        '(construction must raise AttributeError).  Threads: transitions.extensions.states.Timer replaced from outside by '
-        'a virtual timer; asyncio: virtual-time event loop.  Compared after every operation: every recorder call with '
-        'model, state seen and VIRTUAL time (integers), results / exception types of all triggers, exceptions leaving a '
-        'timer thread / routed to on_exception, every model\'s state, the clock.  Asyncio traces are compared per model '
-        'and per category (handler items / transition items) because gathered callbacks interleave.  Non-trivial: the '
-        'machine was built and at least one timeout fired, distinct by hash of the case.  Extra (oracle only): hierarchical '
-        'machines with NESTED timeout states, spec_C17 per (model, nested state).')
+        '(40%), queued (45%) or not, x 1-4 states (timeout 1-4 with 0-3 on_timeout recorders behind a marker recorder, '
+        'timeout 0, or none) x on_enter / on_exit lists of 0-2 recorders (half of them EMPTY: no extra turn of the asyncio '
+        'loop between the cancellation of a timer and the next entry) of which at most one per list triggers an event on '
+        'its model (on_enter 30%: leaves the state at once, re-enters it, internal, invalid; on_exit 15% queued / 5% '
+        'unqueued) x on_timeout callbacks that trigger an event on the timed-out model or (threads) on another model '
+        '(35%) and/or raise (12%) x 1-3 events with transitions (reflexive 30%, internal 10%, failing condition 12%, states '
+        'without transition, denser from the initial state) x 0-2 machine on_exception recorders x 1-3 models x histories '
+        'of 2-16 operations, `model.trigger(event)` or `advance(dt)` with dt drawn around the timeouts (0, 1, timeout-1, '
+        'timeout, timeout+1, long), half of them with an extra pair of events of one model at the same instant with '
+        'nothing in between (re-enter and leave before the cancelled asyncio timer task has run); re-trigger chains that '
+        'do not die out (state-only pre-simulation, then the model\'s fuel) lose their triggers; every 11th case has a '
+        'state with timeout > 0 and no on_timeout (construction must raise AttributeError).  Threads: '
+        'transitions.extensions.states.Timer replaced from outside by a virtual timer; asyncio: virtual-time event loop '
+        'that only advances when nothing is runnable and is never drained between two operations.  The markers TExited / '
+        'TEntered are observed through a property on the model\'s state attribute (no callbacks added).  Compared after '
+        'every operation: every recorder call with model, state seen and VIRTUAL time (integers), results / exception '
+        'types of all triggers, exceptions leaving a timer thread / routed to on_exception, every model\'s state, the '
+        'clock.  Asyncio traces are compared per model and per category (handler items / callback items without the '
+        'state seen / markers / results) because gathered callbacks interleave.  Non-trivial: the machine was built and '
+        'at least one timeout fired, distinct by hash of the case.  Extra (oracle only): hierarchical machines with NESTED '
+        'timeout states, spec_C17 per (model, nested state).')
 ASSUMPTIONS = ['threading.Timer and asyncio.sleep call back at their deadline (ASSUMED: replaced by a virtual timer / a '
                'virtual-time event loop; real preemption between a timer thread and the caller is not explored, see C06)',
                'ties: timers due at the same instant run in creation order and before an event the caller issues at '
                'that instant (what the virtual clock implements)',
-               'on_enter / on_exit callbacks neither raise nor call back into the machine; conditions are constants; only '
-               'on_timeout callbacks trigger events or raise; flat state configurations (nested timeout states are not '
-               'modelled)',
-               'asyncio envelope: at most one callback of an on_timeout list triggers an event (on its own model) and then '
-               'no other callback of that list raises (AsyncMachine would cancel the concurrent transition: C08)',
+               'callbacks do not raise except on_timeout callbacks; conditions are constants; on_enter / on_exit callbacks '
+               'trigger events on their own model only; flat state configurations (nested timeout states: oracle only)',
+               'guard_C17: on an unqueued machine the event triggered by an on_exit callback is inert in that state '
+               '(otherwise the library recurses until RecursionError: nothing to compare)',
+               'asyncio envelope: at most one callback per callback list triggers an event; in an on_timeout list it '
+               'triggers on its own model and then no other callback of that list raises (AsyncMachine would cancel the '
+               'concurrent transition: C08)',
                'the initial state is assigned, not entered: no timeout runs for it (mirrored, documented behaviour)']
-THEOREMS = ['C17_once_on_time', 'C17_nonvacuous', 'C17_invariant', 'C17_never_if_left', 'C17_restart', 'C17_per_model',
-            'C17_validation', 'C17_async_shield', 'C17_async_exception']
+THEOREMS = ['C17_once_on_time', 'C17_nonvacuous', 'C17_guard_needed', 'C17_invariant', 'C17_never_if_left', 'C17_restart',
+            'C17_internal', 'C17_per_model', 'C17_validation', 'C17_async_shield', 'C17_async_exception']
 
 
 # ------------------------------------------------------------------ generation
@@ -427,6 +504,7 @@ def gen(rng, i, tier):
     malformed = (i % 11 == 10)
     is_async = rng.random() < 0.4
     cls = rng.choice(ASYNC_CLASSES if is_async else THREAD_CLASSES)
+    queued = rng.random() < 0.45
     ns = rng.randint(1, 4)
     ne = rng.randint(1, 3)
     nm = rng.randint(1, 3)
@@ -437,8 +515,14 @@ def gen(rng, i, tier):
         nid[0] += 1
         return nid[0]
 
-    def ids(hi=2):
-        return [fresh() for _ in range(rng.choice([0, 0, 1, hi]))]
+    def ids(p_act):
+        """an on_enter / on_exit list: 0-2 recorders (often none at all: no extra turn of the asyncio loop), some
+        of which trigger an event on their model (at most one per list)"""
+        out = []
+        for _ in range(rng.choice([0, 0, 0, 1, 1, 2])):
+            act = rng.randrange(ne) if rng.random() < p_act and not any(c['act'] is not None for c in out) else None
+            out.append(dict(id=fresh(), act=act))
+        return out
 
     states = []
     for s in range(ns):
@@ -461,7 +545,7 @@ def gen(rng, i, tier):
                 for cb in cbs:
                     if cb['act'] is None:
                         cb['raises'] = False
-        states.append(dict(id=s, timeout=timeout, given=given, on_timeout=cbs, enter=ids(), exit=ids()))
+        states.append(dict(id=s, timeout=timeout, given=given, on_timeout=cbs, enter=ids(0.4), exit=ids(0.15 if queued else 0.05)))
     if malformed:
         s = rng.choice(states)
         s['timeout'] = s['timeout'] or rng.randint(1, 3)
@@ -480,6 +564,12 @@ def gen(rng, i, tier):
             row.append([e, rng.randrange(ns), rng.randrange(ns), True])
         trans += row
     rng.shuffle(trans)
+    for s in states:
+        # an on_enter trigger that really leaves (or re-enters) the state it belongs to, more often than by chance
+        leaving = sorted({t[0] for t in trans if t[1] == s['id'] and t[2] is not None and t[3]})
+        for cb in s['enter']:
+            if cb['act'] is not None and leaving and rng.random() < 0.7:
+                cb['act'] = rng.choice(leaving)
     touts = [s['timeout'] for s in states if s['timeout']] or [2]
     hist = []
     for k in range(rng.randint(2, 14)):
@@ -488,7 +578,17 @@ def gen(rng, i, tier):
         else:
             t = rng.choice(touts)
             hist.append([1, rng.choice([0, 1, 1, max(t - 1, 0), t, t, t + 1, t + rng.randint(2, 6)])])
-    return dict(variant='async' if is_async else 'thread', cls=cls, queued=rng.random() < 0.4, states=states,
+    if not queued and any(cb['act'] is not None for s in states for cb in s['exit']):
+        # outside exit_guard timers leak (KF-C17-1); handlers that trigger events would multiply them
+        for s in states:
+            for cb in s['on_timeout']:
+                cb['act'] = None
+    if rng.random() < 0.5:
+        # re-enter and leave again at the same instant: a pair of events of one model with nothing in between
+        k = rng.randrange(len(hist) + 1)
+        m = rng.randrange(nm)
+        hist[k:k] = [[0, m, rng.randrange(ne)], [0, m, rng.randrange(ne)]]
+    return dict(variant='async' if is_async else 'thread', cls=cls, queued=queued, states=states,
                 trans=trans, ignore=rng.random() < 0.3, onexc=[100 + j for j in range(rng.choice([0, 0, 1, 2]))],
                 nmodels=nm, init=init, history=hist)
 
@@ -497,7 +597,8 @@ def _enc_states(case):
     return [[s['id'], s['timeout'] or 0, bool(s['given']),
              [[cb['id'], [] if cb['act'] is None else [[[] if cb['act'][0] is None else [cb['act'][0]], cb['act'][1]]],
                bool(cb['raises'])] for cb in s['on_timeout']],
-             s['enter'], s['exit']] for s in case['states']]
+             [[cb['id'], [] if cb['act'] is None else [cb['act']]] for cb in s['enter']],
+             [[cb['id'], [] if cb['act'] is None else [cb['act']]] for cb in s['exit']]] for s in case['states']]
 
 
 def enc(case):
@@ -507,11 +608,29 @@ def enc(case):
             [list(op) for op in case['history']]]
 
 
-def in_envelope(case):
-    """the asyncio envelope (see ASSUMPTIONS); threads: everything generated"""
-    if case['variant'] != 'async':
+def exit_guard(case):
+    """guard_C17 of C17_once_on_time: a trigger issued by an on_exit callback is deferred (queued machine) or inert
+    in the state the callback belongs to (anything else recurses for ever on an unqueued machine)"""
+    if case['queued']:
         return True
+
+    def inert(st, e):
+        for t in case['trans']:
+            if t[0] == e and t[1] == st and t[3]:
+                return t[2] is None
+        return True
+    return all(cb['act'] is None or inert(s['id'], cb['act']) for s in case['states'] for cb in s['exit'])
+
+
+def in_envelope(case):
+    """guard_C17 and the asyncio envelope (see ASSUMPTIONS)"""
+    if case['variant'] != 'async':
+        return exit_guard(case)
+    if not exit_guard(case):
+        return False
     for s in case['states']:
+        if any(len([cb for cb in s[k] if cb['act'] is not None]) > 1 for k in ('enter', 'exit')):
+            return False
         acting = [cb for cb in s['on_timeout'] if cb['act'] is not None]
         if len(acting) > 1 or any(cb['act'][0] is not None for cb in acting):
             return False
@@ -532,7 +651,9 @@ def _handler_item(it):
 def canon(case, obs):
     """model output: drop the model's own spec verdict.  asyncio: gathered callbacks interleave between models and
     between a handler and the transition it triggered, so every step's items are regrouped (stably) by model and,
-    per model, into handler items, transition items and (again) the marker items in their original order."""
+    per model, into handler items, callback items of transitions (the state seen by an on_enter / on_exit recorder
+    depends on where the other gathered callbacks yield: dropped), marker items (with TFired again) and results of
+    callback-triggered events, each group in its original order."""
     if not (isinstance(obs, list) and len(obs) == 2 and isinstance(obs[1], list) and obs[1] and obs[1][0] == 0):
         return obs
     steps = obs[1][1]
@@ -542,8 +663,11 @@ def canon(case, obs):
             grouped = []
             for m in sorted({_item_model(it) for it in items}):
                 mine = [it for it in items if _item_model(it) == m]
-                grouped.append([m, [it for it in mine if _handler_item(it)], [it for it in mine if not _handler_item(it)],
-                                [it for it in mine if it[0] in (K_EXITED, K_ENTERED, K_FIRED, K_USER)]])
+                cbs = [it[:3] + [0] + it[4:] if it[0] in (K_CEXIT, K_CENTER) else it
+                       for it in mine if not _handler_item(it) and it[0] not in (K_RES, K_EXITED, K_ENTERED)]
+                grouped.append([m, [it[:3] + [0] + it[4:] if it[0] == K_CTIMEOUT else it for it in mine if _handler_item(it)], cbs,
+                                [it for it in mine if it[0] in (K_EXITED, K_ENTERED, K_FIRED, K_USER)],
+                                [it for it in mine if it[0] == K_RES]])
             out.append([grouped, res, snap, clock])
         steps = out
     return [1, [0, steps]]
@@ -595,6 +719,91 @@ def classify_known(case, model_obs, impl_obs):
     return None
 
 
+class _Overflow(Exception):
+    pass
+
+
+def retriggers_terminate(case, depth=5, steps=12):
+    """state-only simulation of every (state, event) start: do the triggers issued by on_enter / on_exit callbacks
+    die out quickly (nesting depth on unqueued machines, queue length on queued ones)?"""
+    sd = {s['id']: s for s in case['states']}
+    events = sorted({t[0] for t in case['trans']})
+
+    def dest(st, e):
+        for t in case['trans']:
+            if t[0] == e and t[1] == st and t[3]:
+                return t
+        return None
+
+    def nested(st, e, dep):
+        if dep > depth:
+            raise _Overflow()
+        t = dest(st, e)
+        if t is None or t[2] is None:
+            return st
+        cur = st
+        for cb in sd[st]['exit']:
+            if cb['act'] is not None:
+                cur = nested(cur, cb['act'], dep + 1)
+        cur = t[2]
+        for cb in sd[t[2]]['enter']:
+            if cb['act'] is not None:
+                cur = nested(cur, cb['act'], dep + 1)
+        return cur
+
+    def queued(st, e):
+        q, cur, n = [e], st, 0
+        while q:
+            n += 1
+            if n > steps:
+                raise _Overflow()
+            ev = q.pop(0)
+            t = dest(cur, ev)
+            if t is None or t[2] is None:
+                continue
+            q += [cb['act'] for cb in sd[cur]['exit'] if cb['act'] is not None]
+            cur = t[2]
+            q += [cb['act'] for cb in sd[cur]['enter'] if cb['act'] is not None]
+        return cur
+    try:
+        for st in sd:
+            for e in events:
+                queued(st, e) if case['queued'] else nested(st, e, 0)
+        return True
+    except _Overflow:
+        return False
+
+
+def _has_out_of_fuel(obs):
+    st = _steps(obs)
+    if st is None:
+        return False
+    return any(r == [4] for _, r, _, _ in st) or any(it[0] == K_RES and it[3] == 4 for step in st for it in step[0])
+
+
+def strip_retriggers(case):
+    c = copy.deepcopy(case)
+    for s in c['states']:
+        for k in ('enter', 'exit'):
+            for cb in s[k]:
+                cb['act'] = None
+    return c
+
+
+def safe_cases(cases):
+    """cases whose callbacks re-trigger for ever (the model runs out of fuel: Python would end in RecursionError
+    or, queued, never return) lose their on_enter / on_exit triggers"""
+    import framework as F
+    cases = [c if retriggers_terminate(c) else strip_retriggers(c) for c in cases]
+    mo = F.run_model(KIND, [enc(c) for c in cases])
+    return [strip_retriggers(c) if _has_out_of_fuel(m) else c for c, m in zip(cases, mo)]
+
+
+def gen_batch(seed, n, tier):
+    import random
+    return safe_cases([gen(random.Random('%s-%d-%d' % (PID, seed, i)), i, tier) for i in range(n)])
+
+
 # ------------------------------------------------------------------ bookkeeping
 def _steps(obs):
     if isinstance(obs, list) and len(obs) == 2 and obs[0] == 1 and obs[1][0] == 0:
@@ -605,8 +814,8 @@ def _steps(obs):
 def _flat_items(case, st):
     if case['variant'] == 'async':
         out = []
-        for _, hi, ti, _mk in st[0]:
-            out += hi + ti
+        for _, hi, ti, mk, rs in st[0]:
+            out += hi + ti + [it for it in mk if it[0] != K_FIRED] + rs
         return out
     return st[0]
 
@@ -617,7 +826,7 @@ def _markers(case, st):
     TUser, which opens a step of its own)"""
     if case['variant'] == 'async':
         out = []
-        for _, _hi, _ti, mk in st[0]:
+        for _, _hi, _ti, mk, _rs in st[0]:
             out += mk
         return sorted(out, key=lambda it: it[-1])
     return [it for it in st[0] if it[0] in (K_EXITED, K_ENTERED, K_FIRED, K_USER)]
@@ -634,6 +843,12 @@ def stats(case, obs, dist):
     inc('class_' + case['cls'])
     inc('queued' if case['queued'] else 'unqueued')
     inc('models_%d' % case['nmodels'])
+    if any(cb['act'] is not None for s in case['states'] for cb in s['enter']):
+        inc('cases_with_on_enter_callback_that_triggers')
+    if any(cb['act'] is not None for s in case['states'] for cb in s['exit']):
+        inc('cases_with_on_exit_callback_that_triggers')
+    if any(not s['enter'] and not s['exit'] for s in case['states'] if s['timeout']):
+        inc('cases_with_timeout_state_without_enter_exit_callbacks')
     steps = _steps(obs)
     if steps is None:
         inc('construction_raised' if isinstance(obs, list) and obs[0] == 1 else 'undecodable')
@@ -654,7 +869,7 @@ def stats(case, obs, dist):
                 if armed.pop(it[1], None):
                     inc('periods_cancelled_by_exit')
             elif it[0] == K_RES:
-                inc('events_triggered_by_handler')
+                inc('events_triggered_by_callbacks')
             elif it[0] == K_ESCAPE:
                 inc('handler_exception_left_thread')
             elif it[0] == K_ONEXC and it[3] != 0:
@@ -689,6 +904,12 @@ def shrink_candidates(case):
                 c = copy.deepcopy(case)
                 del c['states'][si][key][i]
                 yield c
+        for key in ('enter', 'exit'):
+            for i, cb in enumerate(s[key]):
+                if cb['act'] is not None:
+                    c = copy.deepcopy(case)
+                    c['states'][si][key][i]['act'] = None
+                    yield c
         for i, cb in enumerate(s['on_timeout']):
             if cb['act'] is not None or cb['raises']:
                 c = copy.deepcopy(case)
@@ -746,7 +967,7 @@ def extra_checks(tier, seed):
     import framework as F
     out = []
     n = 300 if tier == 'quick' else 3000
-    cases = [gen(random.Random('C17-oracle-%d-%d' % (seed, i)), i, tier) for i in range(n)]
+    cases = safe_cases([gen(random.Random('C17-oracle-%d-%d' % (seed, i)), i, tier) for i in range(n)])
     mo = F.run_model(KIND, [enc(c) for c in cases])
     bad = None
     checked = mutated = 0
